@@ -209,6 +209,13 @@ def _live(ctx):
 # real code on every run (harness `finding`). They become KNOWN-FINDING lines once the coordinator
 # registers the fingerprint in known-findings.json; until then they are counted in the evidence only.
 OBSERVATIONS = {
+    "c20:gid-dns53-delivery-loop":
+        "GENUINE LOOP: TPROXY mode + DNS capture: the proxy's own delivery (uid 0 / gid = proxy GID, mark = TPROXY mark, on lo) to "
+        "podIP:53/tcp is redirected back to the proxy's inbound port by the GID block's call-to-self rule, which lacks the port-53 "
+        "exemption of the UID block",
+    "c20:loopback-included-delivery-loop":
+        "GENUINE LOOP: TPROXY mode + a loopback range in OUTBOUND_IP_RANGES_INCLUDE: the bypass rules are not emitted and every "
+        "delivery of the uid-0 / gid-proxy proxy on lo is redirected back to its inbound port",
     "c20:kubevirt-ignores-outbound-exclusions":
         "traffic entering on a KUBE_VIRT_INTERFACES interface is redirected to the outbound port by the included ranges only: "
         "excluded destination ranges, excluded ports and loopback destinations are not honoured",
